@@ -14,6 +14,7 @@ From Coq Require Import ZArith.
 From Trzsz Require Export Base.Bytes.
 From Trzsz Require Import Gen.Consts Model.Path Model.Fs Model.Names Model.Escape Model.Base64 Model.Wire
   Model.Transfer Model.Protocol.
+From Trzsz Require Model.Resume.
 
 Section FaultTie.
 Variable digest : Type.
@@ -21,9 +22,11 @@ Variable H : list byte -> digest.
 Variable deq : digest -> digest -> bool.
 Variable zdecomp : list byte -> option (list byte).
 Variable unzl : list byte -> option (list byte).
+Variable hx : list byte -> Resume.digest.          (* the prefix digest of the resume exchange *)
+Variable aparse : list byte -> option (src * Z).   (* the decoder of archive headers *)
 
 Notation msg := (tr_msg digest).
-Notation receiver := (tr_receiver digest H deq zdecomp unzl).
+Notation receiver := (tr_receiver digest H deq zdecomp unzl hx aparse).
 
 (* the plain fold: final state and everything the receiver wrote *)
 Fixpoint ft_feed (c : tr_cfg) (dest : path) (st : tr_rstate) (ms : list msg) : tr_rstate * list msg :=
@@ -131,9 +134,11 @@ Variable H : list byte -> digest.
 Variable deq : digest -> digest -> bool.
 Variable zcomp : list (list byte) -> list (list byte).
 Variable zl : list byte -> list byte.
+Variable hx : list byte -> Resume.digest.          (* the prefix digest of the resume exchange *)
+Variable ahdr : src -> Z -> list byte.             (* the encoder of archive headers *)
 
 Notation msg := (tr_msg digest).
-Notation sender := (tr_sender digest H deq zcomp zl).
+Notation sender := (tr_sender digest H deq zcomp zl hx ahdr).
 
 Definition ft_ack (m : msg) : ack digest :=
   match m with
